@@ -124,9 +124,16 @@ class Proxy(object):
         self._enter('listen_dep')
         return None
 
+    def _current(self, name, target):
+        # (recorded for C18 part 'race', not judged here: the target handed
+        # to the driver is the one the frontend holds at this moment)
+        if target is not self.rec['clf'].target:
+            self.rec.setdefault('stale', []).append(name)
+
     def send_cmd_recv_rsp(self, target, data, timeout):
         import nfc.clf
         self._enter('send_cmd_recv_rsp')
+        self._current('send_cmd_recv_rsp', target)
         if data and data[0] == 0x30 and len(data) == 2 and data[1] < 16:
             off = 4 * data[1]
             return bytearray((T2_MEM + T2_MEM)[off:off + 16])
@@ -135,6 +142,7 @@ class Proxy(object):
     def send_rsp_recv_cmd(self, target, data, timeout):
         import nfc.clf
         self._enter('send_rsp_recv_cmd')
+        self._current('send_rsp_recv_cmd', target)
         raise nfc.clf.BrokenLinkError("reader went away")
 
     def get_max_send_data_size(self, target):
@@ -163,6 +171,22 @@ def ep_close(clf, rec):
 
 def ep_exit(clf, rec):
     with clf:
+        pass
+
+
+def ep_exit_kbd(clf, rec):
+    try:
+        with clf:
+            raise KeyboardInterrupt()
+    except KeyboardInterrupt:
+        pass
+
+
+def ep_exit_err(clf, rec):
+    try:
+        with clf:
+            raise ValueError("application error inside the with block")
+    except ValueError:
         pass
 
 
@@ -245,7 +269,7 @@ def ep_connect_card(clf, rec):
 
 
 EPS = dict((f.__name__[3:], f) for f in [
-    ep_open, ep_close, ep_exit, ep_sense1, ep_sense2, ep_listen, ep_listen_a,
+    ep_open, ep_close, ep_exit, ep_exit_kbd, ep_exit_err, ep_sense1, ep_sense2, ep_listen, ep_listen_a,
     ep_listen_b, ep_exchange,
     ep_max_send, ep_max_recv, ep_connect_rdwr, ep_connect_llcp,
     ep_connect_card])
